@@ -626,9 +626,39 @@ func c11NoObjects(ss []c11Node) bool {
 	return true
 }
 
+// c11WideBits are the unit widths at the edges of the four PkgLength forms (1, 2, 3 and 4 bytes)
+var c11WideBits = []int{0x3f, 0x40, 0xfff, 0x1000, 0xffff, 0x10000, 0xfffff, 0x100000, 0xfffffff}
+
+// c11BitsWidth is the shortest PkgLength form that holds v
+func c11BitsWidth(v int) int {
+	switch {
+	case v <= 0x3f:
+		return 1
+	case v <= 0xfff:
+		return 2
+	case v <= 0xfffff:
+		return 3
+	}
+	return 4
+}
+
+// c11WideUnit picks a unit width near one of the PkgLength form boundaries and a form that can hold it
+func c11WideUnit(r *vrng) (bits, w int) {
+	bits = c11WideBits[r.intn(len(c11WideBits))]
+	if r.chance(40) && bits > 8 {
+		bits -= r.intn(8)
+	}
+	w = c11BitsWidth(bits)
+	if w < 4 && r.chance(25) {
+		w += 1 + r.intn(4-w)
+	}
+	return
+}
+
 // fieldUnits fills a Field/IndexField/BankField with n field-list elements declared in `scope`
 func (g *c11Gen) fieldUnits(f *c11List, scope []string, n int) {
 	r := g.r
+	wide := 0 // at most three wide elements per list: offsets stay below 2^32
 	for u := n; u > 0; u-- {
 		switch r.intn(6) {
 		case 0:
@@ -639,6 +669,10 @@ func (g *c11Gen) fieldUnits(f *c11List, scope []string, n int) {
 			}
 			if r.chance(20) {
 				w = 2 + r.intn(3)
+			}
+			if r.chance(30) && wide < 3 {
+				bits, w = c11WideUnit(r)
+				wide++
 			}
 			f.units = append(f.units, fmt.Sprintf("r%d:%d", w, bits))
 			f.uenc = append(f.uenc, append([]byte{0}, c12EncPkgLen(uint32(bits), w)...))
@@ -658,6 +692,10 @@ func (g *c11Gen) fieldUnits(f *c11List, scope []string, n int) {
 				if bits > 0xfff && w < 3 {
 					w = 3
 				}
+			}
+			if r.chance(30) && wide < 3 {
+				bits, w = c11WideUnit(r)
+				wide++
 			}
 			f.units = append(f.units, fmt.Sprintf("u%s:%d:%d", useg, w, bits))
 			f.uenc = append(f.uenc, append([]byte(useg), c12EncPkgLen(uint32(bits), w)...))
@@ -878,10 +916,7 @@ func TestVerifC11(t *testing.T) {
 			var bits int
 			fmt.Sscanf(u[strings.Index(u, ":")+1:], "%d", &bits)
 			nm = u[:strings.Index(u, ":")]
-			w := 1
-			if bits > 0x3f {
-				w = 2
-			}
+			w := c11BitsWidth(bits)
 			if nm == "" {
 				l.units = append(l.units, fmt.Sprintf("r%d:%d", w, bits))
 				l.uenc = append(l.uenc, append([]byte{0}, c12EncPkgLen(uint32(bits), w)...))
@@ -960,6 +995,18 @@ func TestVerifC11(t *testing.T) {
 			one(flist("bfield", N(false, 0, "GIO0"), N(false, 0, "BNK1"), c11Int{0, 0}, 1, ":384", "FET0:1", "FET1:3")),
 			one(name(N(false, 0, "AFTR"), i1(0x42))), one(cont("device", N(false, 0, "DEVA"), name(N(false, 0, "_ADR"), i1(7)))), three("NX0")),
 			[]c11Node{name(N(false, 0, "LATE"), i1(9))}),
+		// field units whose bit width needs each of the four PkgLength forms (seeded change F), with reserved gaps of
+		// those sizes in between so that the offsets of the later units depend on them
+		c11Hand("b-field-wide-units", "indexfield", cat(
+			one(region("WR00", 0, c11Int{4, 0x80000000}, c11Int{4, 0x40000000})), three("WA0"),
+			one(flist("field", N(false, 0, "WR00"), noName, c11Int{}, 1, "WF00:63", "WF01:64", ":63", "WF02:4095", ":64", "WF03:4096", ":4095", "WF04:65535",
+				"WF05:65536", ":4096", "WF06:1048575", "WF07:1048576", ":65536")), three("WB0"),
+			one(flist("field", N(false, 0, "WR00"), noName, c11Int{}, 3, ":1048576", "WF08:268435455", "WF09:1", ":268435455", "WF0A:7")), three("WC0"),
+			one(flist("ifield", N(false, 0, "WF00"), N(false, 0, "WF01"), c11Int{}, 1, "WI00:65536", ":1048575", "WI01:1048576", "WI02:268435455", "WI03:3")), three("WD0"))),
+		c11Hand("b-bankfield-wide-units", "bankfield-deferred", cat(
+			one(region("WR10", 1, c11Int{2, 0x200}, c11Int{2, 0x100})),
+			one(flist("field", N(false, 0, "WR10"), noName, c11Int{}, 1, "WB10:8", "WB11:65536", ":65535")),
+			one(flist("bfield", N(false, 0, "WR10"), N(false, 0, "WB10"), c11Int{1, 2}, 1, "WK00:65536", ":1048576", "WK01:268435455", "WK02:5")), three("WE0"))),
 		// every named-object kind in table 1, each followed by >= 3 siblings; table 1 has a Buffer, a While and a
 		// BankField (deferred blocks); table 2 and 3 use forward method references and methods of table 1
 		c11Hand("b-all-kinds-three-tables", "later-table-scope,bankfield-deferred,indexfield,while-deferred,call", cat(
